@@ -34,6 +34,9 @@ func pickGrammar(r *rand.Rand, idx int, usable bool, cfg gen.RandCfg) *spec.Gram
 	if usable && idx%5 == 3 {
 		return gen.Contexts(r)
 	}
+	if usable && idx%10 == 4 {
+		return gen.Rings(r)
+	}
 	if usable {
 		return gen.RandUsable(r, cfg)
 	}
